@@ -360,6 +360,9 @@ func runC13(w *World, r *Report) {
 		}
 	}
 	r.floor(ruleConc, 60)
+	// the output of one compilation does not depend on what the process compiled before: nothing under cmd.Compile writes into an
+	// object that outlives the compilation through a shared pointer (package-level defaults copied shallowly, MetaData entries)
+	attributeIsolation(w, r, "C13")
 	r.assume("ANTLR runtime, strcase, cobra and html/template (sorted map ranges) are deterministic")
 	r.assume("strcase.ToSnake is injective on the packet names of one DSL (file-name keyed map inserts commute only then)")
 	r.assume("writes to os.Stdout (progress chatter) are not part of C13's observable")
